@@ -8,14 +8,13 @@ Occurs(v, s) == \E i \in 1..(Len(s) - Len(v) + 1) : SubSeq(s, i, i + Len(v) - 1)
 Pos(v, s) == CHOOSE i \in 1..(Len(s) - Len(v) + 1) : SubSeq(s, i, i + Len(v) - 1) = v
 \* the secret fields of each secret-holding type, from the constructor's inputs
 Secrets(e) ==
-  CASE e.ty = "SigningKey" -> <<e.in[1]>>
-    [] e.ty = "ExpandedSecretKey" -> LET h == SHA512(e.in[1]) IN <<ScReduce(ExpandScalar(h)), ExpandPrefix(h)>>
-    [] e.ty \in {"StaticSecret", "EphemeralSecret", "ReusableSecret"} -> <<e.in[1]>>
+  \* every form in which an implementation may plausibly keep the secret: the seed, the expanded scalar (clamped bytes and
+  \* reduced), the nonce prefix; for X25519 the raw and the clamped bytes
+  CASE e.ty \in {"SigningKey", "ExpandedSecretKey"} -> LET h == SHA512(e.in[1]) IN <<e.in[1], ExpandScalar(h), ScReduce(ExpandScalar(h)), ExpandPrefix(h)>>
+    [] e.ty \in {"StaticSecret", "EphemeralSecret", "ReusableSecret"} -> <<e.in[1], Clamp(e.in[1])>>
     [] e.ty = "SharedSecret" -> <<X25519(e.in[1], e.in[2])>>
-ErasedOK(v, before, after) ==
-  /\ Occurs(v, before)                                   \* the secret really was in the object's storage
-  /\ ~Occurs(v, after)                                   \* and is gone after the drop
-  /\ LET i == Pos(v, before) IN \A j \in i..(i + Len(v) - 1) : after[j] = 0
+\* in whatever form the object keeps its secret: if a known form of it is in the storage before the drop, it is gone afterwards
+ErasedOK(v, before, after) == Occurs(v, before) => ~Occurs(v, after)
 ZeroizedValue(ty) ==
   CASE ty \in {"Scalar", "CompressedRistretto", "MontgomeryPoint", "StaticSecret", "RistrettoPoint"} -> Zero(LEN)
     [] ty \in {"EdwardsPoint", "CompressedEdwardsY"} -> Compress(Identity)
@@ -28,7 +27,15 @@ MemJudge(e) ==
          IF ~o.shape_same THEN "allocation pattern depends on the secret"
          ELSE [freed_tainted |-> {i \in 1..Len(o.events) : o.events[i].k = "dealloc" /\ o.events[i].tainted}, live_at_end |-> LiveAtEnd(o.events)]>>
   ELSE IF e.op = "mem.drop" THEN
-       LET s == Secrets(e) IN <<\A i \in 1..Len(s) : ~BIsZero(s[i]) => ErasedOK(s[i], o.before, o.after), "secret bytes survive the drop">>
+       \* erased = what is left does not depend on the secret (the same object built from other secrets leaves the same bytes),
+       \* while the live object's storage did depend on it; no particular internal form of the secret is demanded
+       \* (a SigningKey also holds its public key, which legitimately survives and depends on the secret: for it only the known
+       \* forms of the secret are tracked, and at least one of them must have been there)
+       LET s == Secrets(e) IN
+       <</\ \A i \in 1..Len(s) : ~BIsZero(s[i]) => (ErasedOK(s[i], o.before, o.after) /\ ~Occurs(s[i], o.after))
+         /\ (e.ty = "SigningKey" => \E i \in 1..Len(s) : Occurs(s[i], o.before))
+         /\ (e.ty # "SigningKey" /\ Has(o, "afters") /\ Len(o.afters) > 1 => o.befores_differ /\ \A k \in 2..Len(o.afters) : o.afters[k] = o.afters[1]),
+         "secret bytes survive the drop">>
   \* the encoded value is the documented one AND the storage of the wiped object is the same whatever it held before
   \* (an encoder reads only some coordinates: a surviving T coordinate would not show in o.r)
   ELSE IF e.op = "mem.zeroize" THEN <<o.r = ZeroizedValue(e.ty) /\ (Has(o, "raws") => \A k \in 2..Len(o.raws) : o.raws[k] = o.raws[1]), ZeroizedValue(e.ty)>>
